@@ -33,11 +33,12 @@ def install(ctx):
     probe.attach(Fitter, 'fit', ensure=fit_post)
 
 
-def make_package(ctx, rng, d):
+def make_package(ctx, rng, d, n_models=None):
     """random non-aperture-dependent package; returns dict describing it"""
-    n_models = int(rng.choice([1, 2, 5, 12, 40, 150], p=[0.15, 0.2, 0.25, 0.2, 0.15, 0.05]))
+    big = n_models is not None
+    n_models = int(rng.choice([1, 2, 5, 12, 40, 150], p=[0.15, 0.2, 0.25, 0.2, 0.15, 0.05])) if n_models is None else int(n_models)
     n_bands = int(rng.integers(2, 9))
-    names = gen.model_names(rng, n_models)
+    names = gen.model_names(rng, n_models, 'lex' if big else None)
     wav = gen.band_wavelengths(rng, n_bands)
     # ('v1multi' - multi-aperture files in a package declared aperture-independent - is self-contradictory and outside the statement:
     #  it is no longer generated)
@@ -104,12 +105,21 @@ def run(ctx):
     ctx.require_events('Fitter.fit:post', 'interleave:previous-package', 'law-object:table-reassigned')
     ctx.require_regimes('limit:confidence=1', 'av_interior', 'av_clamped_lo', 'av_clamped_hi', 'lo_eq_hi', 'limit_violated',
                         'limit_satisfied', 'k0_band', 'style:v1', 'style:v2name', 'style:v2wav',
-                        'memmap_on', 'memmap_off', 'source:integer-containers')
+                        'memmap_on', 'memmap_off', 'source:integer-containers', 'grid:thousands-of-models')
     n_pkg = 8 if ctx.quick else 150
     n_src = 30 if ctx.quick else 60
     for ip in range(n_pkg):
         d = ctx.newdir('p')
-        names, wav, filt, tgrid, pinfo = make_package(ctx, rng, d)
+        # "any grid of models": one package per run is a grid of thousands of models (real grids have 10^4..10^5), of a size that is
+        # not a multiple of any power of two up to 8192; the thorough tier adds one above 65536
+        nbig = None
+        if ip == 2 and ctx.shard == 0:
+            nbig = 9001
+        elif not ctx.quick and ip == 5 and ctx.shard == 1:
+            nbig = 70001
+        names, wav, filt, tgrid, pinfo = make_package(ctx, rng, d, n_models=nbig)
+        if nbig:
+            ctx.regime('grid:thousands-of-models')
         # law: sometimes leave some bands outside (k = 0)
         hi_w = float(rng.choice([2000.0, np.sort(wav)[-1] * 0.7 if np.sort(wav)[-1] * 0.7 > 0.6 else 2000.0]))
         lw, lc = gen.make_law_arrays(rng, hi=hi_w)
